@@ -29,7 +29,7 @@ ASSUMPTIONS = [
 ]
 REQUIRED = {"all": ["salted_objects", "type:WF", "type:LC", "type:LZW", "user_alphabets", "user_alphabet_switch_same_object",
                     "step_gt_1_partial_tail", "locality_windows", "wf_entropy_windows", "rejected_unknown_type",
-                    "rejected_long_window", "homopolymer_windows", "step_ge_N", "numpy_int_arguments", "windows_ge_255"]}
+                    "rejected_long_window", "homopolymer_windows", "step_ge_N", "numpy_int_arguments", "windows_ge_255", "user_alphabets_with_extra_keys"]}
 SIZES = [2, 3, 4, 5, 6, 8, 10, 11, 12, 15, 18, 20]
 NSEQ = {"quick": 1000, "thorough": 8000}
 HI = {"quick": 40, "thorough": 150}
@@ -49,6 +49,12 @@ def user_alphabet(rng):
     while True:
         ua = {a: rng.choice(images) for a in M.AA}
         if len(set(ua.values())) >= 2:
+            if rng.random() < 0.25:
+                # entries for keys that are not amino acids (ambiguity codes, gap, lower case) cannot occur in a sequence and
+                # take no part in the alphabet, whatever they map to
+                for extra in rng.sample(["B", "Z", "X", "U", "-", "a", "k", "*"], rng.randint(1, 3)):
+                    ua[extra] = rng.choice([extra, "X", "B", "-", rng.choice(list(M.AA))])
+                _forms[1] += 1
             return ua
 
 
@@ -74,7 +80,7 @@ def call(obj, t, size, ua, w, s, ws, rng):
     return obj.get_linear_complexity(**kw)
 
 
-_forms = [0]
+_forms = [0, 0]
 
 
 def judge(case, rep, S):
@@ -83,6 +89,8 @@ def judge(case, rep, S):
     seq = case["s"]
     if rep.counters.get("size_spelled_as_string_or_float", 0) < _forms[0]:
         rep.cnt("size_spelled_as_string_or_float", _forms[0] - rep.counters.get("size_spelled_as_string_or_float", 0))
+    if rep.counters.get("user_alphabets_with_extra_keys", 0) < _forms[1]:
+        rep.cnt("user_alphabets_with_extra_keys", _forms[1] - rep.counters.get("user_alphabets_with_extra_keys", 0))
     N = len(seq)
     rng = gen.sub_rng(case["o"], ID)
     obj = SP(seq)
